@@ -238,7 +238,17 @@ def all_keys():
     return major_keys() + minor_keys()
 
 
+_KEY_NOTES = {}
+_DENOTE = {}
+
+
 def key_notes(key):
+    if key not in _KEY_NOTES:
+        _KEY_NOTES[key] = tuple(_key_notes(key))
+    return list(_KEY_NOTES[key])
+
+
+def _key_notes(key):
     tonic = key[0].upper() + key[1:]
     steps = MINOR_STEPS if key[0].islower() else MAJOR_STEPS
     out, semis = [tonic], 0
@@ -276,6 +286,14 @@ def parse_numeral(s):
 
 def denote_numeral(s, key):
     """chord denoted by a numeral string in a key; None if the numeral or the suffix is not known"""
+    if (s, key) not in _DENOTE:
+        d = _denote_numeral(s, key)
+        _DENOTE[(s, key)] = None if d is None else tuple(d)
+    d = _DENOTE[(s, key)]
+    return None if d is None else list(d)
+
+
+def _denote_numeral(s, key):
     acc, roman, suffix = parse_numeral(s)
     if roman.upper() not in NUMERALS:
         return None
